@@ -57,8 +57,30 @@ import (
 //	                      path through its body appends `All{Token: ctor(id)}`
 //	RewriteSpatialQuery#4 role agreement of the constructors (above)
 //
-// Accepted idioms are exactly these two ancestor enumerations (level-by-level frontier on the
-// index side, walk to the root on the query side); another enumeration is reported undecided.
+// Counting loops. Either ancestor enumeration may instead be written as a loop over the levels,
+//
+//	for lv := INIT; COND; lv-- { ... cell.Parent(lv) ... }      (lv -= 1, lv = lv - 1 likewise)
+//	for lv := K; lv <= cell.Level(); lv++ { ... }               (ascending)
+//
+// with cell the range variable of the loop over the covering. The levels visited are read from
+// the header: descending from INIT = cell.Level() or cell.Level()-k down to the bound of COND
+// (`lv >= 0`, `lv > -1` -> 0; `lv > 0`, `lv >= 1`, `lv != 0` -> 1; operands either way round);
+// ascending from the constant K up to `<= cell.Level()`, `< cell.Level()`, `<= cell.Level()-k`.
+// Totality on the query side (RewriteSpatialQuery#2): every level from the cell's own level down
+// to 0 is recorded as `ids[cell.Parent(lv)] = ...` (or through `p := cell.Parent(lv)`); the own
+// level may instead be recorded by `ids[cell] = ...` on every path through the loop over the
+// covering, then INIT may be cell.Level()-1. On the index side (F#1 every covering cell reaches
+// the loop, F#2 levels, F#3 emission, F#4 loop discipline) the proper ancestors
+// cell.Level()-1 .. 0 must each be emitted with `acc = append(acc, ctor(cell.Parent(lv)))`,
+// optionally de-duplicated by `if _, ok := seen[p]; !ok { seen[p] = ...; emit }`.
+// A violation names the levels never visited ("level 0 — the face cell — is never looked up:
+// ... condition `level > 0`"). In both places: neither cell nor lv is assigned in the body, every
+// path through the body visits the level, and the body does not leave the loop early.
+//
+// Accepted idioms are exactly these ancestor enumerations (level-by-level frontier or counting
+// loop on the index side; walk to the root or counting loop on the query side); a counting loop
+// whose header cannot be read (non-constant bound, step other than one, bound below 0 or start
+// above the cell's level) and any other enumeration are reported undecided.
 // Not covered: s2 semantics (that Parent(Level()-1) is the immediate parent, that coverings of
 // intersecting regions share a cell), de-duplication of tokens, callers of TokensForCovering.
 func init() {
@@ -256,6 +278,11 @@ func (t *gTT) mapStore(n ast.Node) (types.Object, ast.Expr) {
 // emission matches acc = append(acc, ..., ctor(v) | All{Token: ctor(v)}, ...) and returns the
 // accumulator, the constructor and whether the token was wrapped in a search.All literal.
 func (t *gTT) emission(n ast.Node, v types.Object) (acc types.Object, ctor *types.Func, wrapped bool) {
+	return t.emissionOf(n, func(e ast.Expr) bool { return v != nil && t.identObj(e) == v })
+}
+
+// emissionOf is emission with the constructor's argument accepted by match.
+func (t *gTT) emissionOf(n ast.Node, match func(ast.Expr) bool) (acc types.Object, ctor *types.Func, wrapped bool) {
 	as, ok := n.(*ast.AssignStmt)
 	if !ok || len(as.Lhs) != 1 || len(as.Rhs) != 1 {
 		return nil, nil, false
@@ -293,7 +320,7 @@ func (t *gTT) emission(n ast.Node, v types.Object) (acc types.Object, ctor *type
 		if _, isCtor := t.ctors[f.Origin()]; !isCtor {
 			continue
 		}
-		if t.identObj(cc.Args[0]) == v && v != nil {
+		if match(cc.Args[0]) {
 			return acc, f.Origin(), w
 		}
 	}
@@ -620,6 +647,9 @@ func (t *gTT) checkFrontier(fd *ast.FuncDecl, name string, anc **types.Func) []O
 		return undecidedFrom(0, "no range loop over the covering parameter")
 	}
 	sv := t.rangeVar(seed)
+	if cl := t.findCountingLoop(seed.Body, sv); cl != nil {
+		return t.checkCountingEmitter(g, fd, name, seed, sv, acc, cl, anc)
+	}
 	frontier := mapStoresIn(seed.Body, func(k ast.Expr) bool { return sv != nil && t.identObj(k) == sv })
 	obs[0].Pos = c.Position(seed.Pos())
 	if frontier == nil {
@@ -911,133 +941,151 @@ func (t *gTT) checkRewrite(fd *ast.FuncDecl, name string, marker, own **types.Fu
 			obs[0].Status, obs[0].Detail = OK, fmt.Sprintf("every covering cell contributes its marker token %s", t.ctorName(mctor))
 		}
 	}
-	// #2 walk
-	var walk *ast.ForStmt
-	var steps, otherAssigns []*ast.AssignStmt
-	for _, l := range t.loops(cover.Body) {
-		fs, ok := l.(*ast.ForStmt)
-		if !ok || walk != nil {
-			continue
+	// #2 walk (stepping walk or counting loop)
+	var ids types.Object
+	walkIdiom := func() (stop bool) {
+		var walk *ast.ForStmt
+		var steps, otherAssigns []*ast.AssignStmt
+		for _, l := range t.loops(cover.Body) {
+			fs, ok := l.(*ast.ForStmt)
+			if !ok || walk != nil {
+				continue
+			}
+			has := false
+			inspectShallow(fs.Body, func(n ast.Node) bool {
+				if as, ok := n.(*ast.AssignStmt); ok && len(as.Lhs) == 1 && len(as.Rhs) == 1 && t.identObj(as.Lhs[0]) == v && t.parentOf(as.Rhs[0]) == v {
+					has = true
+				}
+				return true
+			})
+			if has {
+				walk = fs
+			}
 		}
-		has := false
-		inspectShallow(fs.Body, func(n ast.Node) bool {
-			if as, ok := n.(*ast.AssignStmt); ok && len(as.Lhs) == 1 && len(as.Rhs) == 1 && t.identObj(as.Lhs[0]) == v && t.parentOf(as.Rhs[0]) == v {
-				has = true
+		if walk == nil {
+			// no stepping walk: a counting loop over the levels?
+			if cl := t.findCountingLoop(cover.Body, v); cl != nil {
+				ids = t.decideQueryCounting(g, name, cover, v, cl, &obs[1])
+				if ids == nil {
+					undecidedFrom(2, "the counting loop records no cell in a map")
+					return true
+				}
+				return false
+			}
+			undecidedFrom(1, fmt.Sprintf("neither a for loop stepping %s = %s.Parent(%s.Level()-1) nor a counting loop over %s.Parent(level) inside the loop over the covering", v.Name(), v.Name(), v.Name(), v.Name()))
+			return true
+		}
+		obs[1].Pos = c.Position(walk.Pos())
+		if walk.Cond != nil || walk.Init != nil || walk.Post != nil {
+			obs[1].Status = Undecided
+			obs[1].Detail = fmt.Sprintf("%s: the walk at %s has a loop condition; only `for { record; if level 0 { break }; step }` is a known idiom", name, c.Position(walk.Pos()))
+			undecidedFrom(2, "walk not recognised")
+			return true
+		}
+		inspectShallow(walk.Body, func(n ast.Node) bool {
+			if gAssigns(info, n, v) {
+				if as, ok := n.(*ast.AssignStmt); ok && len(as.Lhs) == 1 && len(as.Rhs) == 1 && t.parentOf(as.Rhs[0]) == v {
+					steps = append(steps, as)
+				} else if as, ok := n.(*ast.AssignStmt); ok {
+					otherAssigns = append(otherAssigns, as)
+				} else {
+					otherAssigns = append(otherAssigns, nil)
+				}
 			}
 			return true
 		})
-		if has {
-			walk = fs
-		}
-	}
-	if walk == nil {
-		return undecidedFrom(1, fmt.Sprintf("no for loop stepping %s = %s.Parent(%s.Level()-1) inside the loop over the covering", v.Name(), v.Name(), v.Name()))
-	}
-	obs[1].Pos = c.Position(walk.Pos())
-	if walk.Cond != nil || walk.Init != nil || walk.Post != nil {
-		obs[1].Status = Undecided
-		obs[1].Detail = fmt.Sprintf("%s: the walk at %s has a loop condition; only `for { record; if level 0 { break }; step }` is a known idiom", name, c.Position(walk.Pos()))
-		return undecidedFrom(2, "walk not recognised")
-	}
-	inspectShallow(walk.Body, func(n ast.Node) bool {
-		if gAssigns(info, n, v) {
-			if as, ok := n.(*ast.AssignStmt); ok && len(as.Lhs) == 1 && len(as.Rhs) == 1 && t.parentOf(as.Rhs[0]) == v {
-				steps = append(steps, as)
-			} else if as, ok := n.(*ast.AssignStmt); ok {
-				otherAssigns = append(otherAssigns, as)
-			} else {
-				otherAssigns = append(otherAssigns, nil)
+		inspectShallow(walk.Body, func(n ast.Node) bool {
+			if m, k := t.mapStore(n); m != nil && t.identObj(k) == v && ids == nil {
+				ids = m
 			}
+			return true
+		})
+		if ids == nil {
+			obs[1].Status = Violation
+			obs[1].Detail = fmt.Sprintf("%s: the walk at %s never records %s in a map keyed by cell: no own-token is looked up for the cell or its ancestors", name, c.Position(walk.Pos()), v.Name())
+			undecidedFrom(2, "no record map")
+			return true
 		}
-		return true
-	})
-	var ids types.Object
-	inspectShallow(walk.Body, func(n ast.Node) bool {
-		if m, k := t.mapStore(n); m != nil && t.identObj(k) == v && ids == nil {
-			ids = m
+		isRecord := func(n ast.Node) bool {
+			m, k := t.mapStore(n)
+			return m == ids && t.identObj(k) == v
 		}
-		return true
-	})
-	if ids == nil {
-		obs[1].Status = Violation
-		obs[1].Detail = fmt.Sprintf("%s: the walk at %s never records %s in a map keyed by cell: no own-token is looked up for the cell or its ancestors", name, c.Position(walk.Pos()), v.Name())
-		return undecidedFrom(2, "no record map")
-	}
-	isRecord := func(n ast.Node) bool {
-		m, k := t.mapStore(n)
-		return m == ids && t.identObj(k) == v
-	}
-	wbody, witer, wdone := gLoopBlocks(g, walk)
-	var problems []string
-	var path []string
-	if len(otherAssigns) > 0 {
-		problems = append(problems, fmt.Sprintf("%s is assigned in the walk by something other than the immediate-parent step", v.Name()))
-	}
-	leaveWalk := func(b *cfg.Block) string {
-		if b == wdone {
-			return fmt.Sprintf("leaves the walk at %s", c.Position(walk.Pos()))
+		wbody, witer, wdone := gLoopBlocks(g, walk)
+		var problems []string
+		var path []string
+		if len(otherAssigns) > 0 {
+			problems = append(problems, fmt.Sprintf("%s is assigned in the walk by something other than the immediate-parent step", v.Name()))
 		}
-		if !gInside(b, walk) {
-			return fmt.Sprintf("jumps out of the walk at %s", c.Position(walk.Pos()))
-		}
-		return ""
-	}
-	// (a) entry: record before assigning v, before the next iteration, before leaving
-	sa := &gSearch{c: c, info: info, exitBad: true, stopNode: isRecord,
-		killNode: func(n ast.Node) string {
-			if gAssigns(info, n, v) {
-				return v.Name() + " is stepped before it was recorded"
+		leaveWalk := func(b *cfg.Block) string {
+			if b == wdone {
+				return fmt.Sprintf("leaves the walk at %s", c.Position(walk.Pos()))
+			}
+			if !gInside(b, walk) {
+				return fmt.Sprintf("jumps out of the walk at %s", c.Position(walk.Pos()))
 			}
 			return ""
-		},
-		badBlock: func(b *cfg.Block) string {
-			if witer[b] {
-				return "starts the next iteration without recording " + v.Name()
-			}
-			return leaveWalk(b)
-		}}
-	if w := sa.forward(wbody, 0); w != nil {
-		problems = append(problems, fmt.Sprintf("a path through the walk body reaches a step, the next iteration or the end of the walk without %s[%s] = ...", ids.Name(), v.Name()))
-		path = append(path, w...)
-	}
-	// (b) after each step: record again before leaving the walk (going round the loop is fine)
-	for _, st := range steps {
-		loc, ok := findNode(g, st)
-		if !ok {
-			problems = append(problems, "step not found in the control-flow graph")
-			continue
 		}
-		sb := &gSearch{c: c, info: info, exitBad: true, stopNode: isRecord, badBlock: leaveWalk,
+		// (a) entry: record before assigning v, before the next iteration, before leaving
+		sa := &gSearch{c: c, info: info, exitBad: true, stopNode: isRecord,
 			killNode: func(n ast.Node) string {
 				if gAssigns(info, n, v) {
-					return v.Name() + " is stepped again before it was recorded"
+					return v.Name() + " is stepped before it was recorded"
 				}
 				return ""
+			},
+			badBlock: func(b *cfg.Block) string {
+				if witer[b] {
+					return "starts the next iteration without recording " + v.Name()
+				}
+				return leaveWalk(b)
 			}}
-		if w := sb.forward(loc.b, loc.i+1); w != nil {
-			problems = append(problems, fmt.Sprintf("after the step at %s the walk can end without recording the new %s (the face cell is lost)", c.Position(st.Pos()), v.Name()))
+		if w := sa.forward(wbody, 0); w != nil {
+			problems = append(problems, fmt.Sprintf("a path through the walk body reaches a step, the next iteration or the end of the walk without %s[%s] = ...", ids.Name(), v.Name()))
 			path = append(path, w...)
 		}
+		// (b) after each step: record again before leaving the walk (going round the loop is fine)
+		for _, st := range steps {
+			loc, ok := findNode(g, st)
+			if !ok {
+				problems = append(problems, "step not found in the control-flow graph")
+				continue
+			}
+			sb := &gSearch{c: c, info: info, exitBad: true, stopNode: isRecord, badBlock: leaveWalk,
+				killNode: func(n ast.Node) string {
+					if gAssigns(info, n, v) {
+						return v.Name() + " is stepped again before it was recorded"
+					}
+					return ""
+				}}
+			if w := sb.forward(loc.b, loc.i+1); w != nil {
+				problems = append(problems, fmt.Sprintf("after the step at %s the walk can end without recording the new %s (the face cell is lost)", c.Position(st.Pos()), v.Name()))
+				path = append(path, w...)
+			}
+		}
+		// (c) the walk is left only over a level-0 edge
+		sc := &gSearch{c: c, info: info, exitBad: true,
+			stopEdge: func(b *cfg.Block, k int) bool {
+				z, ok := t.levelZeroEdge(b, v)
+				return ok && z == k
+			},
+			stopBlock: func(b *cfg.Block) bool { return witer[b] },
+			badBlock:  leaveWalk}
+		if w := sc.forward(wbody, 0); w != nil {
+			problems = append(problems, fmt.Sprintf("the walk can be left while %s is not known to be at level 0 (ancestors above it are not looked up)", v.Name()))
+			path = append(path, w...)
+		}
+		if len(problems) > 0 {
+			obs[1].Status = Violation
+			obs[1].Detail = fmt.Sprintf("%s: walk to the root at %s: %s", name, c.Position(walk.Pos()), problems[0])
+			obs[1].Path = append(problems, path...)
+		} else {
+			obs[1].Status = OK
+			obs[1].Detail = fmt.Sprintf("the walk records %s in %s at every level, steps to the immediate parent and ends only at level 0", v.Name(), ids.Name())
+		}
+		return false
 	}
-	// (c) the walk is left only over a level-0 edge
-	sc := &gSearch{c: c, info: info, exitBad: true,
-		stopEdge: func(b *cfg.Block, k int) bool {
-			z, ok := t.levelZeroEdge(b, v)
-			return ok && z == k
-		},
-		stopBlock: func(b *cfg.Block) bool { return witer[b] },
-		badBlock:  leaveWalk}
-	if w := sc.forward(wbody, 0); w != nil {
-		problems = append(problems, fmt.Sprintf("the walk can be left while %s is not known to be at level 0 (ancestors above it are not looked up)", v.Name()))
-		path = append(path, w...)
-	}
-	if len(problems) > 0 {
-		obs[1].Status = Violation
-		obs[1].Detail = fmt.Sprintf("%s: walk to the root at %s: %s", name, c.Position(walk.Pos()), problems[0])
-		obs[1].Path = append(problems, path...)
-	} else {
-		obs[1].Status = OK
-		obs[1].Detail = fmt.Sprintf("the walk records %s in %s at every level, steps to the immediate parent and ends only at level 0", v.Name(), ids.Name())
+	if walkIdiom() {
+		return obs
 	}
 	// #3 own tokens
 	var emit *ast.RangeStmt
@@ -1112,4 +1160,563 @@ func (t *gTT) checkRewrite(fd *ast.FuncDecl, name string, marker, own **types.Fu
 		obs[2].Status, obs[2].Detail = OK, fmt.Sprintf("every recorded cell yields %s and the result is returned", t.ctorName(octor))
 	}
 	return obs
+}
+
+// ---------------------------------------------------------------------------------------
+// Counting loops over the levels: `for lv := INIT; COND; lv--` (or ascending) whose body visits
+// cell.Parent(lv).
+
+type gCountLoop struct {
+	loop   *ast.ForStmt
+	lv     types.Object
+	cell   types.Object
+	desc   bool
+	topOff int64  // highest level visited = cell.Level() + topOff
+	bottom int64  // lowest level visited
+	why    string // non-empty: the bounds could not be read
+}
+
+// parentAt matches cell.Parent(lv).
+func (t *gTT) parentAt(e ast.Expr, cell, lv types.Object) bool {
+	call, ok := ast.Unparen(e).(*ast.CallExpr)
+	if !ok || len(call.Args) != 1 || cell == nil || lv == nil {
+		return false
+	}
+	se, ok := ast.Unparen(call.Fun).(*ast.SelectorExpr)
+	if !ok || t.identObj(se.X) != cell || !t.isCellID(se.X) {
+		return false
+	}
+	if f := calleeFunc(t.info, call); f == nil || f.Name() != "Parent" || f.Pkg() == nil || f.Pkg().Path() != gS2Path {
+		return false
+	}
+	return t.identObj(call.Args[0]) == lv
+}
+
+// levelOffset matches cell.Level(), cell.Level() - k, cell.Level() + k and returns the offset.
+func (t *gTT) levelOffset(e ast.Expr, cell types.Object) (int64, bool) {
+	e = ast.Unparen(e)
+	if t.levelCall(e) == cell && cell != nil {
+		return 0, true
+	}
+	if be, ok := e.(*ast.BinaryExpr); ok && (be.Op == token.SUB || be.Op == token.ADD) && t.levelCall(be.X) == cell && cell != nil {
+		if k, ok := t.constInt(be.Y); ok {
+			if be.Op == token.SUB {
+				return -k, true
+			}
+			return k, true
+		}
+	}
+	return 0, false
+}
+
+// findCountingLoop returns the first three-clause for statement below root whose body mentions
+// cell.Parent(lv) for its own loop variable lv.
+func (t *gTT) findCountingLoop(root ast.Node, cell types.Object) *gCountLoop {
+	if cell == nil {
+		return nil
+	}
+	for _, l := range t.loops(root) {
+		fs, ok := l.(*ast.ForStmt)
+		if !ok || fs.Init == nil {
+			continue
+		}
+		init, ok := fs.Init.(*ast.AssignStmt)
+		if !ok || len(init.Lhs) != 1 || len(init.Rhs) != 1 {
+			continue
+		}
+		lv := t.identObj(init.Lhs[0])
+		if lv == nil {
+			continue
+		}
+		uses := false
+		ast.Inspect(fs.Body, func(n ast.Node) bool {
+			if e, ok := n.(ast.Expr); ok && t.parentAt(e, cell, lv) {
+				uses = true
+			}
+			return true
+		})
+		if !uses {
+			continue
+		}
+		cl := &gCountLoop{loop: fs, lv: lv, cell: cell}
+		// step
+		step := int64(0)
+		switch p := fs.Post.(type) {
+		case *ast.IncDecStmt:
+			if t.identObj(p.X) == lv {
+				step = 1
+				if p.Tok == token.DEC {
+					step = -1
+				}
+			}
+		case *ast.AssignStmt:
+			if len(p.Lhs) == 1 && len(p.Rhs) == 1 && t.identObj(p.Lhs[0]) == lv {
+				switch p.Tok {
+				case token.ADD_ASSIGN, token.SUB_ASSIGN:
+					if k, ok := t.constInt(p.Rhs[0]); ok && k == 1 {
+						step = 1
+						if p.Tok == token.SUB_ASSIGN {
+							step = -1
+						}
+					}
+				case token.ASSIGN:
+					if be, ok := ast.Unparen(p.Rhs[0]).(*ast.BinaryExpr); ok && t.identObj(be.X) == lv {
+						if k, ok := t.constInt(be.Y); ok && k == 1 {
+							if be.Op == token.ADD {
+								step = 1
+							} else if be.Op == token.SUB {
+								step = -1
+							}
+						}
+					}
+				}
+			}
+		}
+		if step == 0 {
+			cl.why = "the post statement is not a step of the level variable by one"
+			return cl
+		}
+		cl.desc = step < 0
+		// condition, normalised to `lv OP other`
+		be, ok := ast.Unparen(fs.Cond).(*ast.BinaryExpr)
+		if fs.Cond == nil || !ok {
+			cl.why = "the loop condition is not a comparison of the level variable"
+			return cl
+		}
+		op, other := be.Op, be.Y
+		switch {
+		case t.identObj(be.X) == lv:
+		case t.identObj(be.Y) == lv:
+			op, other = gFlipOp(be.Op), be.X
+		default:
+			cl.why = "the loop condition does not test the level variable"
+			return cl
+		}
+		if cl.desc {
+			off, ok := t.levelOffset(init.Rhs[0], cell)
+			if !ok {
+				cl.why = fmt.Sprintf("the start %s is not %s.Level() plus or minus a constant", types.ExprString(init.Rhs[0]), cell.Name())
+				return cl
+			}
+			cl.topOff = off
+			k, ok := t.constInt(other)
+			if !ok {
+				cl.why = "the loop condition does not compare with a constant"
+				return cl
+			}
+			switch op {
+			case token.GTR, token.NEQ:
+				cl.bottom = k + 1
+			case token.GEQ:
+				cl.bottom = k
+			default:
+				cl.why = fmt.Sprintf("a descending loop with condition %s", types.ExprString(fs.Cond))
+			}
+			return cl
+		}
+		k, ok := t.constInt(init.Rhs[0])
+		if !ok {
+			cl.why = fmt.Sprintf("the start %s of an ascending loop is not a constant", types.ExprString(init.Rhs[0]))
+			return cl
+		}
+		cl.bottom = k
+		off, ok := t.levelOffset(other, cell)
+		if !ok {
+			cl.why = fmt.Sprintf("the loop condition does not compare with %s.Level() plus or minus a constant", cell.Name())
+			return cl
+		}
+		switch op {
+		case token.LEQ:
+			cl.topOff = off
+		case token.LSS, token.NEQ:
+			cl.topOff = off - 1
+		default:
+			cl.why = fmt.Sprintf("an ascending loop with condition %s", types.ExprString(fs.Cond))
+		}
+		return cl
+	}
+	return nil
+}
+
+func (cl *gCountLoop) header() string {
+	return fmt.Sprintf("for %s; %s; %s", nodeTextOf(cl.loop.Init), types.ExprString(cl.loop.Cond), nodeTextOf(cl.loop.Post))
+}
+
+func nodeTextOf(n ast.Node) string {
+	switch x := n.(type) {
+	case *ast.AssignStmt:
+		return types.ExprString(x.Lhs[0]) + " " + x.Tok.String() + " " + types.ExprString(x.Rhs[0])
+	case *ast.IncDecStmt:
+		return types.ExprString(x.X) + x.Tok.String()
+	}
+	return "..."
+}
+
+// aliases of cell.Parent(lv) defined in the loop body: p := cell.Parent(lv)
+func (t *gTT) parentAliases(cl *gCountLoop) map[types.Object]bool {
+	out := map[types.Object]bool{}
+	assigns := map[types.Object]int{}
+	inspectShallow(cl.loop.Body, func(n ast.Node) bool {
+		if as, ok := n.(*ast.AssignStmt); ok && len(as.Lhs) == len(as.Rhs) {
+			for i, l := range as.Lhs {
+				if o := t.identObj(l); o != nil {
+					assigns[o]++
+					if t.parentAt(as.Rhs[i], cl.cell, cl.lv) {
+						out[o] = true
+					}
+				}
+			}
+		}
+		return true
+	})
+	for o := range out {
+		if assigns[o] != 1 {
+			delete(out, o)
+		}
+	}
+	return out
+}
+
+// bodyDiscipline: the cell and the level variable are not assigned in the body, every path
+// through the body passes a visit, and the body never leaves the loop early.
+func (t *gTT) bodyDiscipline(g *cfg.CFG, cl *gCountLoop, visit func(ast.Node) bool, seenEdge func(*cfg.Block, int) bool, what string) (problems []string, path []string) {
+	c, info := t.c, t.info
+	inspectShallow(cl.loop.Body, func(n ast.Node) bool {
+		if gAssigns(info, n, cl.cell) {
+			problems = append(problems, fmt.Sprintf("%s is re-assigned inside the counting loop at %s", cl.cell.Name(), c.Position(n.Pos())))
+		}
+		if gAssigns(info, n, cl.lv) {
+			problems = append(problems, fmt.Sprintf("the level variable %s is assigned inside the loop body at %s", cl.lv.Name(), c.Position(n.Pos())))
+		}
+		return true
+	})
+	if w := t.throughBody(g, cl.loop, visit, seenEdge, nil, what); w != nil {
+		problems = append(problems, fmt.Sprintf("a path through the body of `%s` at %s does not execute %s for that level", cl.header(), c.Position(cl.loop.Pos()), what))
+		path = append(path, w...)
+	}
+	body, iter, done := gLoopBlocks(g, cl.loop)
+	if body != nil {
+		s := &gSearch{c: c, info: info, exitBad: true,
+			stopBlock: func(b *cfg.Block) bool { return iter[b] },
+			badBlock: func(b *cfg.Block) string {
+				if b == done || !gInside(b, cl.loop) {
+					return fmt.Sprintf("leaves the counting loop at %s before its condition ends it", c.Position(cl.loop.Pos()))
+				}
+				return ""
+			}}
+		if w := s.forward(body, 0); w != nil {
+			problems = append(problems, fmt.Sprintf("the body of `%s` at %s can leave the loop early (break/return); the remaining levels are not visited", cl.header(), c.Position(cl.loop.Pos())))
+			path = append(path, w...)
+		}
+	}
+	return
+}
+
+// levelsVerdict: which levels between the required top (cell.Level()+needTop) and 0 are never
+// visited. ownSeparately says that the cell's own level is visited outside the loop.
+func (cl *gCountLoop) levelsVerdict(needTop int64, ownSeparately bool, verb string) (status, detail string) {
+	cell := cl.cell.Name()
+	switch {
+	case cl.why != "":
+		return Undecided, fmt.Sprintf("counting loop `%s`: %s", cl.header(), cl.why)
+	case cl.bottom < 0:
+		return Undecided, fmt.Sprintf("counting loop `%s` runs below level 0 (down to %d)", cl.header(), cl.bottom)
+	case cl.topOff > 0:
+		return Undecided, fmt.Sprintf("counting loop `%s` starts above the cell's own level", cl.header())
+	case cl.bottom == 1:
+		return Violation, fmt.Sprintf("level 0 — the face cell — is never %s: the loop `%s` visits levels %s down to 1 (condition `%s`)", verb, cl.header(), cl.topText(), types.ExprString(cl.loop.Cond))
+	case cl.bottom > 1:
+		return Violation, fmt.Sprintf("levels 0 to %d (the face cell and the cells above level %d) are never %s: the loop `%s` stops at level %d (condition `%s`)", cl.bottom-1, cl.bottom, verb, cl.header(), cl.bottom, types.ExprString(cl.loop.Cond))
+	}
+	// bottom == 0
+	have := cl.topOff
+	if ownSeparately && cl.topOff == -1 {
+		have = 0 // the loop starts just below the cell, whose own level is visited outside the loop
+	}
+	if have < needTop {
+		missingTop := "the cell's own level"
+		if needTop < 0 {
+			missingTop = fmt.Sprintf("level %s.Level()%d", cell, needTop)
+		}
+		return Violation, fmt.Sprintf("%s is never %s: the loop `%s` visits no level above %s and nothing else covers the levels above it", missingTop, verb, cl.header(), cl.topText())
+	}
+	return OK, fmt.Sprintf("the loop `%s` visits every level from %s down to 0", cl.header(), cl.topText())
+}
+
+func (cl *gCountLoop) topText() string {
+	switch {
+	case cl.topOff == 0:
+		return cl.cell.Name() + ".Level()"
+	case cl.topOff < 0:
+		return fmt.Sprintf("%s.Level()%d", cl.cell.Name(), cl.topOff)
+	}
+	return fmt.Sprintf("%s.Level()+%d", cl.cell.Name(), cl.topOff)
+}
+
+// decideQueryCounting decides RewriteSpatialQuery#2 for a counting loop and returns the record map.
+func (t *gTT) decideQueryCounting(g *cfg.CFG, name string, cover *ast.RangeStmt, v types.Object, cl *gCountLoop, ob *Obligation) types.Object {
+	c, info := t.c, t.info
+	ob.Pos = c.Position(cl.loop.Pos())
+	aliases := t.parentAliases(cl)
+	isParentKey := func(k ast.Expr) bool {
+		return t.parentAt(k, cl.cell, cl.lv) || aliases[t.identObj(k)]
+	}
+	var ids types.Object
+	inspectShallow(cl.loop.Body, func(n ast.Node) bool {
+		if m, k := t.mapStore(n); m != nil && isParentKey(k) && ids == nil {
+			ids = m
+		}
+		return true
+	})
+	if ids == nil {
+		ob.Status = Violation
+		ob.Detail = fmt.Sprintf("%s: the counting loop `%s` at %s never records %s.Parent(%s) in a map keyed by cell: no own-token is looked up for the ancestors", name, cl.header(), c.Position(cl.loop.Pos()), v.Name(), cl.lv.Name())
+		return nil
+	}
+	what := fmt.Sprintf("%s[%s.Parent(%s)] = ...", ids.Name(), v.Name(), cl.lv.Name())
+	problems, path := t.bodyDiscipline(g, cl, func(n ast.Node) bool {
+		m, k := t.mapStore(n)
+		return m == ids && isParentKey(k)
+	}, nil, what)
+	// the covering cell must not be re-assigned before the loop either
+	// own level recorded separately: ids[v] = ... on every path through the loop over the covering
+	ownSeparately := false
+	hasOwn := false
+	inspectShallow(cover.Body, func(n ast.Node) bool {
+		if m, k := t.mapStore(n); m == ids && t.identObj(k) == v {
+			hasOwn = true
+		}
+		return true
+	})
+	if hasOwn {
+		w := t.throughBody(g, cover, func(n ast.Node) bool {
+			m, k := t.mapStore(n)
+			return m == ids && t.identObj(k) == v
+		}, nil, func(n ast.Node) string {
+			if gAssigns(info, n, v) {
+				return v.Name() + " is re-assigned before it is recorded"
+			}
+			return ""
+		}, fmt.Sprintf("%s[%s] = ...", ids.Name(), v.Name()))
+		ownSeparately = w == nil
+		if w != nil && cl.topOff < 0 {
+			problems = append(problems, fmt.Sprintf("%s[%s] = ... (the cell's own level) is not executed on every path through the loop over the covering", ids.Name(), v.Name()))
+			path = append(path, w...)
+		}
+	}
+	// every covering cell reaches the counting loop
+	var head *cfg.Block
+	for _, b := range g.Blocks {
+		if b.Stmt == ast.Stmt(cl.loop) && (b.Kind == cfg.KindForLoop) {
+			head = b
+		}
+	}
+	if head != nil {
+		cbody, citer, cdone := gLoopBlocks(g, cover)
+		s := &gSearch{c: c, info: info, exitBad: true, stopBlock: func(b *cfg.Block) bool { return b == head },
+			killNode: func(n ast.Node) string {
+				if gAssigns(info, n, v) {
+					return v.Name() + " is re-assigned before the counting loop"
+				}
+				return ""
+			},
+			badBlock: func(b *cfg.Block) string {
+				if citer[b] || b == cdone {
+					return "a covering cell skips the counting loop"
+				}
+				return ""
+			}}
+		if cbody != nil {
+			if w := s.forward(cbody, 0); w != nil {
+				problems = append(problems, fmt.Sprintf("a path through the loop over the covering does not reach the counting loop at %s with %s unchanged", c.Position(cl.loop.Pos()), v.Name()))
+				path = append(path, w...)
+			}
+		}
+	}
+	status, detail := cl.levelsVerdict(0, ownSeparately, "looked up")
+	switch {
+	case status == Undecided:
+		ob.Status, ob.Detail = Undecided, fmt.Sprintf("%s: %s", name, detail)
+	case status == Violation:
+		ob.Status, ob.Detail = Violation, fmt.Sprintf("%s: walk to the root at %s: %s", name, c.Position(cl.loop.Pos()), detail)
+		ob.Path = append(problems, path...)
+	case len(problems) > 0:
+		ob.Status, ob.Detail = Violation, fmt.Sprintf("%s: walk to the root at %s: %s", name, c.Position(cl.loop.Pos()), problems[0])
+		ob.Path = append(problems, path...)
+	default:
+		own := ""
+		if cl.topOff < 0 {
+			own = fmt.Sprintf("; the cell's own level is recorded by %s[%s] = ...", ids.Name(), v.Name())
+		}
+		ob.Status, ob.Detail = OK, fmt.Sprintf("%s, recording each in %s%s", detail, ids.Name(), own)
+	}
+	return ids
+}
+
+// checkCountingEmitter: the index-side ancestor emitter written as a counting loop
+// (instances #1 reach, #2 levels, #3 emission, #4 loop discipline).
+func (t *gTT) checkCountingEmitter(g *cfg.CFG, fd *ast.FuncDecl, name string, seed *ast.RangeStmt, sv, acc types.Object, cl *gCountLoop, anc **types.Func) []Obligation {
+	c, info := t.c, t.info
+	obs := make([]Obligation, 4)
+	for i := range obs {
+		obs[i] = Obligation{Key: gNthKey(name, i+1), Pos: c.Position(cl.loop.Pos())}
+	}
+	obs[0].Pos = c.Position(seed.Pos())
+	// #1 every covering cell reaches the counting loop unchanged
+	var head *cfg.Block
+	for _, b := range g.Blocks {
+		if b.Stmt == ast.Stmt(cl.loop) && b.Kind == cfg.KindForLoop {
+			head = b
+		}
+	}
+	sbody, siter, sdone := gLoopBlocks(g, seed)
+	var w []string
+	if head == nil || sbody == nil {
+		w = []string{"loops not found in the control-flow graph"}
+	} else {
+		s := &gSearch{c: c, info: info, exitBad: true, stopBlock: func(b *cfg.Block) bool { return b == head },
+			killNode: func(n ast.Node) string {
+				if gAssigns(info, n, sv) {
+					return sv.Name() + " is re-assigned before the counting loop"
+				}
+				return ""
+			},
+			badBlock: func(b *cfg.Block) string {
+				if siter[b] || b == sdone {
+					return "a covering cell skips the counting loop"
+				}
+				return ""
+			}}
+		w = s.forward(sbody, 0)
+	}
+	if w != nil {
+		obs[0].Status = Violation
+		obs[0].Detail = fmt.Sprintf("%s: a path through the loop over the covering at %s does not reach the counting loop over the levels; that cell's ancestors get no token", name, c.Position(seed.Pos()))
+		obs[0].Path = w
+	} else {
+		obs[0].Status, obs[0].Detail = OK, fmt.Sprintf("every covering cell enters the counting loop `%s`", cl.header())
+	}
+	// #2 levels: proper ancestors, cell.Level()-1 down to 0
+	st, detail := cl.levelsVerdict(-1, false, "given a token")
+	obs[1].Status, obs[1].Detail = st, fmt.Sprintf("%s: %s", name, detail)
+	// #3 emission on every path through the body
+	aliases := t.parentAliases(cl)
+	match := func(e ast.Expr) bool { return t.parentAt(e, cl.cell, cl.lv) || aliases[t.identObj(e)] }
+	var ctor *types.Func
+	inspectShallow(cl.loop.Body, func(n ast.Node) bool {
+		if a, f, wrapped := t.emissionOf(n, match); f != nil && a == acc && !wrapped && ctor == nil {
+			ctor = f
+		}
+		return true
+	})
+	if ctor == nil {
+		obs[2].Status = Undecided
+		obs[2].Detail = fmt.Sprintf("%s: the counting loop `%s` does not append a cell token constructor applied to %s.Parent(%s) to %s directly; other ways of emitting (through a set, with de-duplication) are not known idioms", name, cl.header(), sv.Name(), cl.lv.Name(), acc.Name())
+		obs[3].Status, obs[3].Detail = Undecided, obs[2].Detail
+		return obs
+	}
+	*anc = ctor
+	what := fmt.Sprintf("%s = append(%s, %s(%s.Parent(%s)))", acc.Name(), acc.Name(), ctor.Name(), sv.Name(), cl.lv.Name())
+	problems, path := t.bodyDiscipline(g, cl, func(n ast.Node) bool {
+		a, f, wrapped := t.emissionOf(n, match)
+		return f == ctor && a == acc && !wrapped
+	}, t.seenEdge(cl, match, func(n ast.Node) bool {
+		a, f, wrapped := t.emissionOf(n, match)
+		return f == ctor && a == acc && !wrapped
+	}), what)
+	var emitProblems, loopProblems []string
+	for _, p := range problems {
+		if strings.Contains(p, "does not execute") {
+			emitProblems = append(emitProblems, p)
+		} else {
+			loopProblems = append(loopProblems, p)
+		}
+	}
+	inspectShallow(fd.Body, func(n ast.Node) bool {
+		if rs, ok := n.(*ast.ReturnStmt); ok {
+			if len(rs.Results) != 1 || t.identObj(rs.Results[0]) != acc {
+				emitProblems = append(emitProblems, fmt.Sprintf("%s %s does not return the accumulated tokens %s", c.Position(rs.Pos()), nodeText(c.Fset, rs), acc.Name()))
+			}
+		}
+		return true
+	})
+	if len(emitProblems) > 0 {
+		obs[2].Status, obs[2].Detail, obs[2].Path = Violation, fmt.Sprintf("%s: %s", name, emitProblems[0]), append(emitProblems, path...)
+	} else {
+		obs[2].Status, obs[2].Detail = OK, fmt.Sprintf("every visited level is emitted with %s", t.ctorName(ctor))
+	}
+	// #4 loop discipline
+	if len(loopProblems) > 0 {
+		obs[3].Status, obs[3].Detail, obs[3].Path = Violation, fmt.Sprintf("%s: %s", name, loopProblems[0]), append(loopProblems, path...)
+	} else {
+		obs[3].Status, obs[3].Detail = OK, fmt.Sprintf("the counting loop steps %s by one, never leaves early, and neither %s nor %s is assigned in its body", cl.lv.Name(), sv.Name(), cl.lv.Name())
+	}
+	return obs
+}
+
+// seenEdge recognises de-duplication inside a counting loop:
+//
+//	if _, ok := seen[p]; !ok { seen[p] = ...; <emit p> }
+//
+// with seen a map keyed by cell, p the visited ancestor, and the store into seen a statement of
+// the same block as the emission. The edge on which ok is true (already emitted earlier)
+// discharges a path.
+func (t *gTT) seenEdge(cl *gCountLoop, match func(ast.Expr) bool, isEmit func(ast.Node) bool) func(*cfg.Block, int) bool {
+	okVars := map[types.Object]types.Object{} // ok variable -> map
+	inspectShallow(cl.loop.Body, func(n ast.Node) bool {
+		as, ok := n.(*ast.AssignStmt)
+		if !ok || len(as.Lhs) != 2 || len(as.Rhs) != 1 {
+			return true
+		}
+		ix, ok := ast.Unparen(as.Rhs[0]).(*ast.IndexExpr)
+		if !ok || !match(ix.Index) {
+			return true
+		}
+		mt, ok := t.info.TypeOf(ix.X).Underlying().(*types.Map)
+		if !ok || !isNamed(mt.Key(), gS2Path, "CellID") {
+			return true
+		}
+		if m, okv := t.identObj(ix.X), t.identObj(as.Lhs[1]); m != nil && okv != nil {
+			okVars[okv] = m
+		}
+		return true
+	})
+	// the map must be filled next to the emission
+	stored := map[types.Object]bool{}
+	ast.Inspect(cl.loop.Body, func(n ast.Node) bool {
+		blk, ok := n.(*ast.BlockStmt)
+		if !ok {
+			return true
+		}
+		emits := false
+		var ms []types.Object
+		for _, st := range blk.List {
+			if isEmit(st) {
+				emits = true
+			}
+			if m, k := t.mapStore(st); m != nil && match(k) {
+				ms = append(ms, m)
+			}
+		}
+		if emits {
+			for _, m := range ms {
+				stored[m] = true
+			}
+		}
+		return true
+	})
+	return func(b *cfg.Block, k int) bool {
+		cond, ok := gCondOf(b).(ast.Expr)
+		if !ok {
+			return false
+		}
+		cond = ast.Unparen(cond)
+		seenSucc := 0
+		if ue, ok := cond.(*ast.UnaryExpr); ok && ue.Op == token.NOT {
+			cond = ast.Unparen(ue.X)
+			seenSucc = 1
+		}
+		m, isOK := okVars[t.identObj(cond)]
+		return isOK && stored[m] && k == seenSucc
+	}
 }
